@@ -34,6 +34,8 @@ _real = {
 }
 
 EPOCH = 1.7e9
+# read-only in a worker; sharing them models fork's copy-on-write without copying megabytes
+_SHARE_BY_CLASS = ("MachineModel", "ArchSemantics", "ISASemantics", "ParserX86ATT", "ParserAArch64")
 SPEEDS = (1e-5, 3e-5, 1e-4, 3e-4, 1e-3)  # simulated seconds per traced line
 START_DELAYS = (0.0, 0.0, 0.003, 0.05, 0.19, 0.35)
 
@@ -96,6 +98,10 @@ class SimProcess:
         self.start_index = sum(1 for p in w.procs if p.started) - 1
         # fork semantics: the child sees a private copy of everything reachable from target/args
         memo = {id(x): x for x in w.shared}
+        owner = getattr(self._target, "__self__", None)
+        for x in list(getattr(owner, "__dict__", {}).values()) + list(self._args):
+            if type(x).__name__ in _SHARE_BY_CLASS:
+                memo[id(x)] = x
         for m in w.managers:
             for px in m.proxies:
                 memo[id(px)] = px
